@@ -127,21 +127,28 @@ func build(id string, race bool) string {
 	}
 	bin := filepath.Join(bdir, "props.test")
 	args := []string{"test", "-c", "-o", bin}
-	modfile := ""
+	cleanup := func() {}
 	if race {
 		bin = filepath.Join(bdir, "props-race.test")
 		scratch, mf, err := instrument(simDir)
+		cleanup = func() {
+			if scratch != "" {
+				os.RemoveAll(scratch)
+			}
+			if mf != "" {
+				os.Remove(mf)
+				os.Remove(strings.TrimSuffix(mf, ".mod") + ".sum")
+			}
+		}
 		if err != nil {
+			cleanup()
 			infra("instrumenting scratch copy: %v", err)
 		}
-		defer os.RemoveAll(scratch)
-		modfile = mf
-		defer os.Remove(mf)
-		defer os.Remove(strings.TrimSuffix(mf, ".mod") + ".sum")
-		args = []string{"test", "-c", "-race", "-modfile=" + modfile, "-o", bin}
+		args = []string{"test", "-c", "-race", "-tags", "simhook", "-modfile=" + mf, "-o", bin}
 	}
 	args = append(args, "./props")
 	out, err := run(simDir, goEnv(), goBin(), args...)
+	cleanup()
 	if err != nil {
 		infra("build failed (this is not a verdict about the property):\n%s", out)
 	}
@@ -273,7 +280,7 @@ func checkCmd(id, tier string, seed uint64) int {
 			cmd := exec.Command(bin, "-test.run", "^TestWorker$", "-test.timeout", "0", "-sim.prop", id, "-sim.tier", tier,
 				"-sim.seed", fmt.Sprint(seed), "-sim.shard", fmt.Sprint(k), "-sim.shards", fmt.Sprint(n), "-sim.max", fmt.Sprint(maxRuns),
 				"-sim.budget", budget.String(), "-sim.out", out, "-sim.tmp", wtmp)
-			cmd.Env = append(os.Environ(), "GOMAXPROCS=2", "GORACE=halt_on_error=0 history_size=3", "VERIF_REPO=/repo")
+			cmd.Env = append(os.Environ(), "GOMAXPROCS=2", "GORACE=halt_on_error=0 history_size=3 log_path="+filepath.Join(wtmp, "race"), "VERIF_REPO=/repo")
 			cmd.Dir = root
 			done := make(chan struct{})
 			var o []byte
@@ -376,7 +383,7 @@ func checkCmd(id, tier string, seed uint64) int {
 		shr := filepath.Join(tmp, "shrunk.json")
 		_ = os.Remove(shr)
 		if newViolations < 8 {
-			_, _ = run(root, append(os.Environ(), "GOMAXPROCS=2", "VERIF_REPO=/repo"), bin, "-test.run", "^TestShrink$", "-test.timeout", "10m", "-sim.shrink", cand, "-sim.out", shr)
+			_, _ = run(root, append(os.Environ(), "GOMAXPROCS=2", "VERIF_REPO=/repo", "GORACE=halt_on_error=0 history_size=3 log_path="+filepath.Join(tmp, "race-shrink")), bin, "-test.run", "^TestShrink$", "-test.timeout", "10m", "-sim.shrink", cand, "-sim.out", shr)
 		}
 		if b, err := os.ReadFile(shr); err == nil {
 			raw = b
@@ -438,7 +445,7 @@ func safe(s string) string {
 
 func replayOnce(bin, path, tmp string) (replayResult, error) {
 	out := filepath.Join(tmp, fmt.Sprintf("replay-%d.json", time.Now().UnixNano()))
-	o, err := run(root, append(os.Environ(), "GOMAXPROCS=2", "VERIF_REPO=/repo", "GORACE=halt_on_error=0"), bin, "-test.run", "^TestReplay$", "-test.timeout", "10m", "-sim.replay", path, "-sim.out", out, "-sim.attempts", attemptsFor(path))
+	o, err := run(root, append(os.Environ(), "GOMAXPROCS=2", "VERIF_REPO=/repo", "GORACE=halt_on_error=0 history_size=3 log_path="+filepath.Join(tmp, fmt.Sprintf("race-replay-%d", time.Now().UnixNano()))), bin, "-test.run", "^TestReplay$", "-test.timeout", "10m", "-sim.replay", path, "-sim.out", out, "-sim.attempts", attemptsFor(path))
 	var rr replayResult
 	b, rerr := os.ReadFile(out)
 	if rerr != nil {
@@ -559,7 +566,7 @@ func determinismCmd(args []string) int {
 		if s := os.Getenv("VERIF_SEED"); s != "" {
 			seed = s
 		}
-		o, err := run(root, append(os.Environ(), "GOMAXPROCS="+procs, "VERIF_REPO=/repo", "GORACE=halt_on_error=0"), bin, "-test.run", "^TestWorker$", "-test.timeout", "0", "-sim.prop", id,
+		o, err := run(root, append(os.Environ(), "GOMAXPROCS="+procs, "VERIF_REPO=/repo", "GORACE=halt_on_error=0 history_size=3 log_path="+filepath.Join(wtmp, "race")), bin, "-test.run", "^TestWorker$", "-test.timeout", "0", "-sim.prop", id,
 			"-sim.seed", seed, "-sim.shard", "0", "-sim.shards", "1", "-sim.max", fmt.Sprint(n), "-sim.budget", "30m", "-sim.out", out, "-sim.digests", "-sim.tmp", wtmp)
 		b, rerr := os.ReadFile(out)
 		if rerr != nil {
@@ -597,6 +604,11 @@ func determinismCmd(args []string) int {
 func attemptsFor(path string) string {
 	if strings.Contains(path, "/C11/") {
 		return "20"
+	}
+	if strings.Contains(path, "/C13/") {
+		// a task that blocks outside the kernel's knowledge (only seen on broken trees) runs
+		// unserialised for a moment when it wakes; such replays may need a second attempt
+		return "5"
 	}
 	return "1"
 }
